@@ -707,7 +707,7 @@ class CallNode:
     @property
     def key(self):
         def k(a):
-            kind, v = a
+            kind, v = a[0], a[1]
             if kind == "arr":
                 return ("arr",) + tuple(e.id for e in v)
             if kind == "scalar":
@@ -969,7 +969,7 @@ class Translation:
                         raise TranslatorUnsupported(
                             f"{ospec.pyname}: non-static array argument {name} contains inf"
                         )
-                    cargs.append(("arr", flat))
+                    cargs.append(("arr", flat, tuple(a.shape)))
                 elif kind == "scalar":
                     e = lift(v)
                     if e.is_inf:
@@ -997,6 +997,9 @@ class Translation:
         return stub
 
 
+CALLOUT_SHAPES: dict = {}
+
+
 def _mk_callouts(call, ret):
     def mk(r, path):
         if r[0] == "scalar":
@@ -1004,6 +1007,7 @@ def _mk_callouts(call, ret):
         if r[0] == "arr":
             shape = r[1]
             n = int(_np.prod(shape))
+            CALLOUT_SHAPES[(call.id, path)] = tuple(shape)
             a = _np.empty(n, dtype=object).view(SArr)
             for i in range(n):
                 a[i] = Node("callout", call.id, path, i)
